@@ -52,6 +52,16 @@ def gen_ring(rng, d, style):
         q = list(pts[0])
         q[rng.randrange(2, d)] = shapes.f2b(99.0)          # same X, Y; another M or Z
         pts.append(q)
+    if style == "lowm" and d > 2:
+        # measures below the "no data" threshold (-1e38) other than the NO_DATA value itself: ordinary numbers for a constructor
+        low = [shapes.f2b(-2e39), shapes.f2b(-3e39), shapes.f2b(-1e300), shapes.F_MAX | (1 << 63), shapes.NINF]
+        for p in (pts[1:-1] if mode == "closed_signed_zero" else pts[:-1] if mode != "open" else pts):
+            if rng.random() < 0.6:
+                p[d - 1] = rng.choice(low)
+        if mode == "closed":
+            pts[-1] = list(pts[0])
+        elif mode == "closed_but_zm":
+            pts[0][d - 1], pts[-1][d - 1] = low[0], low[1]       # same X, Y, Z; two different low measures: an open ring
     if style == "special":
         for p in (pts[1:-1] if mode == "closed_signed_zero" else pts[:-1] if mode != "open" else pts):
             if rng.random() < 0.3:
@@ -97,7 +107,7 @@ def run(rep, tier, rng):
     n = 2500 if tier == "thorough" else 450
     for i in range(n):
         fam = rng.choice(["polygon", "polygon", "multipatch"])
-        style = rng.choice(["triangle", "general", "general", "degenerate", "special"])
+        style = rng.choice(["triangle", "general", "general", "degenerate", "special", "lowm"])
         if fam == "polygon":
             code = rng.choice(shapes.POLYGON_CODES)
             d = shapes.dim_of(code)
@@ -129,11 +139,28 @@ def run(rep, tier, rng):
             cases.append([2] + spec)
             meta.append(("multipatch", 31, patches, style))
         rep.dist(fam + "_" + style)
+    # rings of more than 1024 vertices (the reader's pre-sizing cap and a natural block size): K vertices up the line
+    # x = 0, then across and down x = 16 — the few long edges carry all the area, and they fall on every index
+    # around 1024 and 2048 as K and the starting vertex vary
+    for K in ((1021, 1023, 1024, 1025, 2047, 2048, 2050) if tier == "thorough" else (1023, 1024, 1025, 2048)):
+        for rot in (0, 1, 5):
+            for rev in (False, True):
+                pts = [[0, shapes.f2b(float(y))] for y in range(1, K + 1)] + [[shapes.f2b(16.0), shapes.f2b(float(K))], [shapes.f2b(16.0), shapes.f2b(1.0)]]
+                pts = pts[rot:] + pts[:rot]
+                if rev:
+                    pts.reverse()
+                role = (K + rot) % 2
+                if rot == 5:
+                    pts.append(list(pts[0]))
+                cases.append([2, 5, 0, role] + shapes.flat_pts(pts))
+                meta.append(("polygon", 5, [(role, pts)], "long"))
+                rep.dist("polygon_long")
     rep.cov["rule"] = ("%d constructor calls: Polygon/PolygonM/PolygonZ new and with_rings, Multipatch new and with_parts; rings "
                        "of 1-6 vertices, open, closed, closed by value only (a zero differing in sign), or closed in X/Y only (last "
                        "vertex differs in M or Z), both "
                        "orientations, both declared roles, all six patch kinds, triangles (3 open / 4 closed vertices), "
-                       "degenerate (repeated or collinear vertices), special values (+-inf, -0, f64::MAX); constructed value "
+                       "degenerate (repeated or collinear vertices), special values (+-inf, -0, f64::MAX), measures below the no-data threshold, "
+                       "rings of 1023-2050 vertices whose long edges fall on every index around 1024 and 2048; constructed value "
                        "compared with the model; oracle: every stored ring = caller's sequence closed by one copy of its first "
                        "vertex if open, kept or reversed as a whole; closed in every coordinate; role kept; Outer clockwise / "
                        "Inner counter-clockwise by EXACT rational signed area whenever the double evaluation is exact and the "
